@@ -160,7 +160,7 @@ func partRealBinaryStorms(c *check.Ctx, a *acc) {
 			return
 		}
 		defer p.Kill()
-		for k := 0; k < 1000 && hds.Secret() == ""; k++ {
+		for k := 0; k < 4000 && hds.Secret() == ""; k++ {
 			time.Sleep(10 * time.Millisecond)
 		}
 		secret := hds.Secret()
